@@ -627,4 +627,44 @@ theorem nonvacuous_cnt_ramp :
   rw [this]; exact hfl
 
 
+
+/-! ### the split used by `cnt_end_of_hold` exists for every trigger temperature in range -/
+
+/-- for a descending hold list whose last temperature is below `cn ≤ Ts` there is a (unique) place
+where the program leaves `cn`: `hs = pre ++ p :: rest` with `p.temp < cn ≤ lastTemp Ts pre`. -/
+theorem exists_split (cn : ℝ) : ∀ (Ts : ℝ) (hs : List (Hold ℝ)), Desc Ts hs → lastTemp Ts hs < cn → cn ≤ Ts →
+    ∃ pre p rest, hs = pre ++ p :: rest ∧ p.temp < cn ∧ cn ≤ lastTemp Ts pre := by
+  intro Ts hs
+  induction hs generalizing Ts with
+  | nil => intro _ h1 h2; simp only [lastTemp] at h1; exact absurd h2 (not_le.mpr h1)
+  | cons h t ih =>
+    intro hd h1 h2
+    by_cases hlt : h.temp < cn
+    · exact ⟨[], h, t, rfl, hlt, by simpa [lastTemp] using h2⟩
+    · obtain ⟨pre, p, rest, e, hp, hc⟩ := ih h.temp hd.2 (by simpa [lastTemp] using h1) (not_lt.mp hlt)
+      exact ⟨h :: pre, p, rest, by rw [e]; rfl, hp, by simpa [lastTemp] using hc⟩
+
+/-- **every trigger temperature of the property's range is covered**: for a well-formed program and
+`stop < cn ≤ start` the split of `cnt_end_of_hold` exists, with every hold of `pre` taken from the
+program's own holds (so their durations are the program's durations). -/
+theorem exists_split_allHolds (oc : OpCond ℝ) (cn : ℝ) (h : C05.WF oc 1) (hlo : oc.stop < cn) (hhi : cn ≤ oc.start) :
+    ∃ pre p rest, allHolds oc = pre ++ p :: rest ∧ p.temp < cn ∧ cn ≤ lastTemp oc.start pre ∧
+      (∀ a ∈ pre, a ∈ oc.holds) := by
+  have hd : Desc oc.start (allHolds oc) := desc_append_singleton h.desc h.stop_le
+  have hl : lastTemp oc.start (allHolds oc) = oc.stop := by
+    simp [allHolds, lastTemp_append_singleton]
+  obtain ⟨pre, p, rest, e, hp, hc⟩ := exists_split cn oc.start (allHolds oc) hd (by rw [hl]; exact hlo) hhi
+  refine ⟨pre, p, rest, e, hp, hc, ?_⟩
+  intro a ha
+  -- `pre` is a proper prefix of `holds ++ [final]`, so it lies inside `holds`
+  have hlen : pre.length < (allHolds oc).length := by rw [e]; simp
+  have hlen' : pre.length ≤ oc.holds.length := by simp [allHolds] at hlen; omega
+  have hpre : pre = (allHolds oc).take pre.length := by rw [e]; simp
+  have : pre = oc.holds.take pre.length := by
+    rw [hpre]; simp only [allHolds, List.length_take]
+    rw [List.take_append_of_le_length (by simpa using hlen')]
+    simp
+  rw [this] at ha
+  exact List.mem_of_mem_take ha
+
 end Snow.CNT
